@@ -22,19 +22,42 @@ def showParent : Option Nat → String
   | none => "r"
   | some i => toString i
 
+/-- column and flag of blank/comment nodes carry no meaning (IndentationCheckAnalyzer ignores them): masked -/
 def showRow (r : Row) : String :=
-  s!"{r.idx}:{showParent r.parent}:{showBool r.err}:{r.info.char}:{kindStr r.info.kind}"
+  if r.info.kind == .ws then s!"{r.idx}:{showParent r.parent}:-:-:w"
+  else s!"{r.idx}:{showParent r.parent}:{showBool r.err}:{r.info.char}:{kindStr r.info.kind}"
 
 def showRows (rs : List Row) : String := if rs.isEmpty then "-" else ";".intercalate (rs.map showRow)
 
+/-- a typed value as an exact fraction `p/q`; `~` when the text it was read from has more than 15 digits or a
+    decimal exponent beyond ±200 (the harness then does not compare the float), `N` = None -/
+def showDec (text : List Char) (v : Option Dec10) : String :=
+  match v with
+  | none => "N"
+  | some d =>
+    if (text.filter isDecimal).length > 15 || d.exp.natAbs > 200 then "~"
+    else
+      let r : Rat := if d.exp ≥ 0 then mkRat (d.mant * (10 : Int) ^ d.exp.toNat) 1
+                     else mkRat d.mant (10 ^ d.exp.natAbs)
+      s!"{r.num}/{r.den}"
+
 def showCond (c : Cond) : String :=
   "\t".intercalate [encL c.op, encL c.lhs, encL c.rhs, encO c.tagName, encO c.tagValue, encO c.tagUnit,
-                    showBool c.error]
+                    showBool c.error, showDec (c.tagValue.getD []) c.tagNumeric]
 
+/-- every observed field, including the raw groups -/
 def showNode (nd : Node) : String :=
-  "\t".intercalate [nd.cls, toString nd.char, showBool nd.indentError, encL nd.thr, encL nd.namePart,
-                    encL nd.name, encL nd.argPart, encL nd.args, showBool nd.hasArg, showBool nd.hasComment,
-                    encL nd.comment] ++
+  "\t".intercalate [nd.cls, toString nd.char, showBool nd.indentError, encL nd.thr, showDec nd.thr nd.thrVal,
+                    encL nd.namePart, encL nd.name, encL nd.argPart, encL nd.args, showBool nd.hasArg,
+                    showBool nd.hasComment, encL nd.comment] ++
+  (match nd.cond with
+   | none => ""
+   | some c => "\t" ++ showCond c)
+
+/-- the parts the property speaks about (no raw groups) -/
+def showParts (nd : Node) : String :=
+  "\t".intercalate [nd.cls, toString nd.char, showBool nd.indentError, encL nd.thr, showDec nd.thr nd.thrVal,
+                    encL nd.name, encL nd.args, showBool nd.hasArg, showBool nd.hasComment, encL nd.comment] ++
   (match nd.cond with
    | none => ""
    | some c => "\t" ++ showCond c)
@@ -50,34 +73,40 @@ def parseInfo (s : String) : Option LineInfo :=
     | _, _, _ => none
   | _ => none
 
-/-- ops:
-  `text <fxLine> <fxIndent> <uod names ;-separated> <text>`  → rows of the parsed program (pre-order)
-  `nodes <fxLine> <uod> <text>`                            → number of lines, class of each line
-  `fold <fxIndent> <char:kind:perr ;-separated>`           → rows (the indentation pass on abstract lines)
-  `line <fxLine> <uod> <line>`                             → fields of the node of one line
-  `cond <fxLine> <ops ;-separated> <part>`                 → `_parse_tag_operator_value`
+/-- ops (`fl` = C18 repair, `fe` = error-line repair, `fi` = C17 indentation repair):
+  `text <fl> <fe> <fi> <uod names ;-separated> <text>`     → rows of the parsed program (pre-order)
+  `nodes <fl> <fe> <uod> <text>`                           → number of lines, class of each line
+  `fold <fi> <char:kind:perr ;-separated>`                 → rows (the indentation pass on abstract lines)
+  `line <fl> <fe> <uod> <line>`                            → every field of the node of one line
+  `linep <fl> <fe> <uod> <line>`                           → the parts only
+  `cond <fl> <ops ;-separated> <part>`                     → `_parse_tag_operator_value`
   `split <text>`                                           → `str.splitlines` -/
 def step (_ : Unit) (line : String) : Unit × String :=
   match fields line with
-  | ["text", fl, fi, uod, t] =>
-    match parseBool fl, parseBool fi, decodeList uod, decodeStr t with
-    | some fl, some fi, some uod, some t => ((), showRows (parseText fl fi uod t.toList))
-    | _, _, _, _ => ((), "bad-op")
-  | ["nodes", fl, uod, t] =>
-    match parseBool fl, decodeList uod, decodeStr t with
-    | some fl, some uod, some t =>
-      let ns := nodesOf fl uod t.toList
+  | ["text", fl, fe, fi, uod, t] =>
+    match parseBool fl, parseBool fe, parseBool fi, decodeList uod, decodeStr t with
+    | some fl, some fe, some fi, some uod, some t => ((), showRows (parseText fl fe fi uod t.toList))
+    | _, _, _, _, _ => ((), "bad-op")
+  | ["nodes", fl, fe, uod, t] =>
+    match parseBool fl, parseBool fe, decodeList uod, decodeStr t with
+    | some fl, some fe, some uod, some t =>
+      let ns := nodesOf fl fe uod t.toList
       ((), toString ns.length ++ "\t" ++ ",".intercalate (ns.map (·.cls)))
-    | _, _, _ => ((), "bad-op")
+    | _, _, _, _ => ((), "bad-op")
   | ["fold", fi, ls] =>
     match parseBool fi, ((ls.splitOn ";").filter (· ≠ "")).mapM parseInfo with
     | some fi, some ls => ((), showRows (parseRows fi ls))
     | _, _ => ((), "bad-op")
-  | ["line", fl, uod, l] =>
-    match parseBool fl, decodeList uod, decodeStr l with
-    | some fl, some uod, some l =>
-      if l.toList.contains '\n' then ((), "bad-op") else ((), showNode (parseLine fl uod l.toList))
-    | _, _, _ => ((), "bad-op")
+  | ["line", fl, fe, uod, l] =>
+    match parseBool fl, parseBool fe, decodeList uod, decodeStr l with
+    | some fl, some fe, some uod, some l =>
+      if l.toList.contains '\n' then ((), "bad-op") else ((), showNode (parseLineE fl fe uod l.toList))
+    | _, _, _, _ => ((), "bad-op")
+  | ["linep", fl, fe, uod, l] =>
+    match parseBool fl, parseBool fe, decodeList uod, decodeStr l with
+    | some fl, some fe, some uod, some l =>
+      if l.toList.contains '\n' then ((), "bad-op") else ((), showParts (parseLineE fl fe uod l.toList))
+    | _, _, _, _ => ((), "bad-op")
   | ["cond", fl, ops, part] =>
     match parseBool fl, decodeList ops, decodeStr part with
     | some fl, some ops, some part => ((), showCond (parseCond fl (ops.map String.toList) part.toList))
